@@ -131,6 +131,7 @@ class Gen:
         self.chains = {}
         self.contents = {}
         self.homes = {}     # k -> (ty, d)
+        self.skyruns = set()
         self.nextk = 0
         self.ops = []
         self.probes = []
@@ -142,12 +143,17 @@ class Gen:
             self.emit(list(op), light=True)
         for _ in range(r.randint(5, 9)):
             self.emit(self.gen_set(), light=True)
+        for _ in range(r.randint(0, 3)):
+            self.emit(["sky", r.choice(RUNS), r.randint(0, 1)], light=True)
         for i in range(nsteps):
             x = r.random()
             if late and x < 0.12:
                 self.emit(list(late.pop()))
             elif x < 0.22:
                 self.emit(self.gen_set())
+                if r.random() < 0.5:
+                    # a {skymap}-only dataset next to it: puts a foreign governor value into a RUN's summary
+                    self.emit(["sky", r.choice([c for c in RUNS if c in self.colls] or [0]), r.randint(0, 1)], light=True)
             elif x < 0.27:
                 self.emit(self.gen_rm())
             elif x < 0.29:
@@ -286,6 +292,10 @@ class Gen:
         if op[0] == "rmcoll" and op[1] in self.colls and op[1] not in self.chains and \
                 any(c == op[1] for (c, _, _) in self.contents) and not any(op[1] in cs for cs in self.chains.values()):
             op = ["rmcoll", UNKNOWN]     # removing a populated RUN/TAGGED collection is C02's business
+        if op[0] == "sky":
+            self.skyruns.add(op[1])
+        if op[0] == "rmcoll" and op[1] in self.skyruns:
+            op = ["rmcoll", UNKNOWN]     # a RUN holding a {skymap}-only dataset is populated as well
         self.predict(op)
         self.ops.append(op)
         pr = []
@@ -304,6 +314,8 @@ class Gen:
                     pr.append({"t": "find", "ns": path, "ty": ty, "ds": ds, "apis": [0, 1, 2, 3, 4], "gc": True})
                 else:
                     pr.append({"t": "find", "ns": path, "ty": ty, "ds": DIDS, "apis": [2, 3], "gc": False})
+                if r.random() < 0.4:
+                    pr[-1]["fg"] = r.randint(0, 1)     # query-based searches also constrained by skymap = 'S<fg>'
                 # the same search with one chain replaced by its children: must give the same answers
                 chs = [i for i, c in enumerate(path) if c in self.chains]
                 if chs and r.random() < 0.5:
@@ -362,6 +374,8 @@ def c_case(case, res):
     steps = []
     for st in res["steps"]:
         i = st["step"]
+        if case["ops"][i][0] == "sky":
+            continue        # {skymap}-only datasets are outside the model (they never match a dt0 / dt1 search); oracle only
         out = "Done" if st["out"] == "ok" else f"(Refused {c_err(st['out'])})"
         rows = clist(f"mkRow {cn(a)} {cz(b)} {cn(c)}" for a, b, c in st["rows"])
         steps.append(f"({c_op(case['ops'][i])}, {out}, {clist(c_probes(case['probes'][i], st['probes']))}, {rows})")
@@ -506,6 +520,7 @@ class Oracle:
         path = spec_flatten(colls, chains, p["ns"])
         depth = max([depth_of(chains, n) for n in p["ns"]] or [0])
         ctx.hist("search_depth", depth)
+        ctx.hist("find_constraint", "foreign-governor(skymap)" if p.get("fg") is not None else "none")
         for api, per_d in o.items():
             nm = API_NAMES[int(api)]
             for d, od in per_d.items():
